@@ -41,7 +41,7 @@ Check ==
      /\ \A p \in P : AccountedR(p.o, p.r)                      \* nothing lost, nothing duplicated
      /\ \A p \in P : SeqAddsR(p.o, p.r)                        \* sequence numbers only add "_seq"
      /\ (DoEmit => PrintT(ToJson([f |-> "dec", d |-> d,
-               g |-> SetToSeq({[r |-> r, os |-> SetToSeq({OptCode(p.o) : p \in {q \in P : q.r = r}})] : r \in R})])))
+               g |-> SetToSeq({[r |-> Jsonable(r), os |-> SetToSeq({OptCode(p.o) : p \in {q \in P : q.r = r}})] : r \in R})])))
 
 N(l) == NM("", l)
 \* family: element names (case folding, snake-casing, namespace prefixes create collisions)
@@ -50,10 +50,10 @@ cNames == [names |-> {N(<<"a">>), N(<<"B">>), N(<<"a", "-", "b">>), NM("ns", <<"
 \* family: attributes (ordered choices, folding collisions, xmlns declarations, values to cast / escape / trim)
 cAttrs == [names |-> {N(<<"a">>)}, anames |-> {N(<<"x">>), N(<<"X">>), N(<<"x", "-", "y">>), NM("xmlns", <<"n">>)},
            avals |-> {<<"7">>, <<" ", "&">>}, texts |-> {<<"v">>}, maxattrs |-> 2, comments |-> FALSE]
-cAttrs1 == [cAttrs EXCEPT !.maxattrs = 1]
+cAttrs1 == [cAttrs EXCEPT !.maxattrs = 1, !.avals = @ \cup {<<"'", "\"">>}]
 \* family: text placement (before / between / after children, blank runs, trimming, cast and escape look-alikes, comments)
 cTexts == [names |-> {N(<<"a">>), N(<<"b">>)}, anames |-> {N(<<"x">>)}, avals |-> {<<"1">>},
            texts |-> {<<" ", "v", " ">>, <<"7">>, <<"\n">>, <<" ">>, <<"<", "&">>}, maxattrs |-> 1, comments |-> TRUE]
-cTextsQ == [cTexts EXCEPT !.texts = {<<" ", "v", " ">>, <<"7">>, <<"\n">>, <<"<", "&">>}, !.comments = FALSE]
-cTextsMore == [cTexts EXCEPT !.texts = @ \cup {<<"v">>, <<"t", "r", "u", "e">>, <<"a", " ", "b">>}]
+cTextsQ == [cTexts EXCEPT !.texts = {<<" ", "v", " ">>, <<"7">>, <<"\n">>, <<"<", "&">>, <<"'">>}, !.comments = FALSE]
+cTextsMore == [cTexts EXCEPT !.texts = @ \cup {<<"v">>, <<"t", "r", "u", "e">>, <<"a", " ", "b">>, <<"'">>, <<"\"", ">">>}]
 =============================================================================
